@@ -163,15 +163,19 @@ class GraphNode(HyperNode):
             for output in node.outputs:
                 output_to_node[output] = node
 
+        # Renamed outputs (with_outputs) are produced inside under their original name
+        reverse_map = build_reverse_rename_map(self._rename_history, "outputs")
+
         # For each output of this GraphNode, get type from source node
         for output_name in self.outputs:
-            source_node = output_to_node.get(output_name)
+            original_name = reverse_map.get(output_name, output_name)
+            source_node = output_to_node.get(original_name)
             if source_node is None:
                 result[output_name] = self._wrap_type_for_map_over(None)
                 continue
 
             # Use universal get_output_type method
-            output_type = source_node.get_output_type(output_name)
+            output_type = source_node.get_output_type(original_name)
             result[output_name] = self._wrap_type_for_map_over(output_type)
 
         return result
